@@ -188,6 +188,76 @@ Fixpoint value_of (fuel : nat) (r : resolver) (vis : list vkey) (e : expr) : out
       end
   end.
 
+(* ---- the same with the memo table _deep_eval_map ---------------------------------------------------------
+   In the code one dictionary holds both finished results and the recursion sentinel; here [vis] are the keys holding the
+   sentinel (as above) and [memo] the finished ones.  A resolver object keeps its memo across calls, so the state is
+   threaded through sequences of queries as well. *)
+Definition memo_t := list (vkey * expr).
+Fixpoint mlookup (m : memo_t) (k : vkey) : option expr :=
+  match m with
+  | [] => None
+  | (k', v) :: m' => if vkey_eqb k' k then Some v else mlookup m' k
+  end.
+
+Fixpoint seqM_m {A B S} (f : S -> A -> outcome B * S) (st : S) (l : list A) : outcome (list B) * S :=
+  match l with
+  | [] => (Ok [], st)
+  | x :: r => match f st x with
+              | (Ok y, st1) => match seqM_m f st1 r with
+                               | (Ok ys, st2) => (Ok (y :: ys), st2)
+                               | (Loop, st2) => (Loop, st2)
+                               | (OutOfFuel, st2) => (OutOfFuel, st2)
+                               end
+              | (Loop, st1) => (Loop, st1)
+              | (OutOfFuel, st1) => (OutOfFuel, st1)
+              end
+  end.
+
+(* _value_of_recursive(key): [self] is the queried value, [v] = value_of(self, recursive=False), [rec] the recursive call *)
+Definition recursive_step (rec : memo_t -> list vkey -> expr -> outcome expr * memo_t)
+           (memo : memo_t) (vis : list vkey) (k : vkey) (self v : expr) : outcome expr * memo_t :=
+  match mlookup memo k with
+  | Some a => (Ok a, memo)
+  | None =>
+      if kmem k vis then (Loop, memo)
+      else if expr_eqb v self then (Ok self, (k, self) :: memo)
+      else match rec memo (k :: vis) v with
+           | (Ok a, memo') => (Ok a, (k, a) :: memo')
+           | (Loop, memo') => (Loop, memo')
+           | (OutOfFuel, memo') => (OutOfFuel, memo')
+           end
+  end.
+
+Fixpoint value_of_m (fuel : nat) (r : resolver) (memo : memo_t) (vis : list vkey) (e : expr) : outcome expr * memo_t :=
+  match fuel with
+  | O => (OutOfFuel, memo)
+  | S f =>
+      match e with
+      | Num q => (Ok (Num q), memo)
+      | Sym s =>
+          match lookup r s with
+          | None => (Ok (Sym s), memo)
+          | Some (Num q) => (Ok (Num q), memo)
+          | Some v => recursive_step (value_of_m f r) memo vis (KSym s) (Sym s) v
+          end
+      | App h l =>
+          if fast h l then
+            match seqM_m (fun st x => value_of_m f r st vis x) memo l with
+            | (Ok l', memo') => (Ok (App h l'), memo')
+            | (Loop, memo') => (Loop, memo')
+            | (OutOfFuel, memo') => (OutOfFuel, memo')
+            end
+          else recursive_step (value_of_m f r) memo vis (KExpr e) e (subst r e)
+      end
+  end.
+
+(* a sequence of queries on one resolver object *)
+Fixpoint value_of_seq (fuel : nat) (r : resolver) (memo : memo_t) (es : list expr) : list (outcome expr) :=
+  match es with
+  | [] => []
+  | e :: rest => let '(o, memo') := value_of_m fuel r memo [] e in o :: value_of_seq fuel r memo' rest
+  end.
+
 (* value_of(value, recursive=False): the fast paths map over the arguments, a symbol is replaced by
    its dictionary entry as is, everything else is one sympy subs *)
 Fixpoint value_of_once (r : resolver) (e : expr) : expr :=
